@@ -367,6 +367,7 @@ func Run(newProc Factory, kinds map[string]bool) {
 	seed := flag.Int64("seed", 1, "seed")
 	n := flag.Int("n", 1800, "number of generated sequences")
 	big := flag.Int("big", 20, "number of sequences that contain long random frames")
+	quoted := flag.Int("quoted", 40, "number of histories of ICMP error messages with quoted datagrams per icmp/udp configuration")
 	trunc := flag.Bool("alltrunc", false, "additionally truncate the seed frames at every length")
 	replay := flag.String("replay", "", "replay the sequences of a JSON file ({kind,vpn,frames[hex]} or a list of them)")
 	flag.Parse()
@@ -410,6 +411,17 @@ func Run(newProc Factory, kinds map[string]bool) {
 	for _, cf := range configs {
 		g := &gen{g: fr.Gen{R: r}, kind: genKind(cf.kind), vpn: cf.vpn}
 		for _, s := range g.fixedSequences() {
+			emit(cf.kind, cf.vpn, s.ring, s.frames, s.classes)
+		}
+	}
+	// histories of ICMP error messages that quote the probe (complete quoted header, then short / cut quotes)
+	for _, cf := range configs {
+		if genKind(cf.kind) != "icmp" {
+			continue
+		}
+		g := &gen{g: fr.Gen{R: r}, kind: "icmp", vpn: cf.vpn}
+		for i := 0; i < *quoted; i++ {
+			s := g.quotedHistory()
 			emit(cf.kind, cf.vpn, s.ring, s.frames, s.classes)
 		}
 	}
